@@ -216,11 +216,23 @@ def _later_mutation(f, node, target):
     """after the store, the same place is mutated again in this function (partial publication)"""
     t = ast.unparse(target)
     line = node.lineno
+    aliases = set()
+    if isinstance(node, ast.Assign):
+        if isinstance(node.value, ast.Name):
+            aliases.add(node.value.id)
+        for tg in node.targets:
+            if isinstance(tg, ast.Name):
+                aliases.add(tg.id)
     for n in iter_own_nodes(f.node):
         if getattr(n, "lineno", 0) <= line or n is node:
             continue
-        if isinstance(n, ast.Call) and isinstance(n.func, ast.Attribute) and n.func.attr in MUTATORS and ast.unparse(n.func.value) == t:
+        if isinstance(n, ast.Call) and isinstance(n.func, ast.Attribute) and n.func.attr in MUTATORS and (
+                ast.unparse(n.func.value) == t or _root_name(n.func.value) in aliases):
             return n
+        if isinstance(n, (ast.Assign, ast.AugAssign)) and aliases:
+            tg = n.targets[0] if isinstance(n, ast.Assign) else n.target
+            if isinstance(tg, (ast.Subscript, ast.Attribute)) and _root_name(tg) in aliases:
+                return n
         if isinstance(n, (ast.Assign, ast.AugAssign)):
             tg = n.targets[0] if isinstance(n, ast.Assign) else n.target
             if isinstance(tg, ast.Subscript) and ast.unparse(tg.value) == t:
@@ -277,8 +289,16 @@ def classify(ctx, heap, f, node, kind, target):
             direct = (val_names & params) - key_names
             if direct:
                 return "FINDING", "keyed memo whose value mentions the call parameters %s beyond its key" % sorted(direct)
+            later = _later_mutation(f, node, place)
+            if later is not None:
+                return "FINDING", ("published before it is complete: stored at line %d and then modified by `%s` at line %d"
+                                   % (node.lineno, ast.unparse(later)[:50], later.lineno))
             return "keyed-memo", "if key not in container: container[key] = value (value determined by the key)"
         used = val_names & dep
+        if used:
+            dead = _dependent_part_unread(ctx, f, node, place, dep)
+            if dead:
+                return "lazy-memo", "argument-dependent part of the cached value is never read: " + dead
         if used:
             return "FINDING", ("lazily cached on a shared object but computed from per-call arguments (%s): the first "
                                "caller's settings decide what every later call sees" % sorted(used))
@@ -296,6 +316,92 @@ def classify(ctx, heap, f, node, kind, target):
                 return "keyed-memo", "single writer of the caches; every caller tests membership of the same (settings hash, locale) key first"
     # registry insert: registry_dict[key] = creator(...) under `if key not in registry_dict`
     return "FINDING", "write to process-wide state that is neither construction, a memo idiom nor lock-protected"
+
+
+def _attr_readers(ctx, attr):
+    """(func, node) for every load of `.<attr>` or call of a getter that returns `self.<attr>`"""
+    getters = set()
+    for g in ctx.ix.funcs.values():
+        for n in iter_own_nodes(g.node):
+            if isinstance(n, ast.Return) and isinstance(n.value, ast.Attribute) and n.value.attr == attr \
+                    and isinstance(n.value.value, ast.Name) and n.value.value.id == "self":
+                getters.add(g.key)
+    out = []
+    for g in ctx.ix.funcs.values():
+        for n in iter_own_nodes(g.node):
+            if isinstance(n, ast.Attribute) and n.attr == attr and isinstance(n.ctx, ast.Load) and g.key not in getters:
+                out.append((g, n))
+        for s in ctx.cg.sites.get(g.key, ()):
+            if any(c.key in getters for c in s.callees) and isinstance(s.node, ast.Call):
+                out.append((g, s.node))
+    return out, getters
+
+
+def _dependent_part_unread(ctx, f, node, place, dep):
+    """checked exemption for lazily cached values whose argument-dependent part has no reader:
+    (a) dict of sets where every reader subscripts a constant key whose entry is built without dependent names;
+    (b) a value read only by the builder of another cached value, where it only reaches an unread part."""
+    if not (isinstance(place, ast.Attribute) and isinstance(place.value, ast.Name) and place.value.id == "self"):
+        return None
+    attr = place.attr
+    readers, getters = _attr_readers(ctx, attr)
+    # the guard tests (`is None`) and the getter's own return do not count as reads of the content
+    content_reads = []
+    for g, n in readers:
+        par = None
+        for a in ancestors(g.node, n):
+            par = a
+            break
+        if isinstance(par, ast.Compare) and ast.unparse(par.comparators[0]) == "None":
+            continue
+        content_reads.append((g, n, par))
+    if not content_reads:
+        return None
+    # (a) every content read is `<value>["const"]`
+    keys = set()
+    all_sub = True
+    for g, n, par in content_reads:
+        if isinstance(par, ast.Subscript) and par.value is n and isinstance(par.slice, ast.Constant):
+            keys.add(par.slice.value)
+        else:
+            all_sub = False
+    if all_sub and isinstance(node.value, ast.Name):
+        # entries of the dict literal bound to that name, and their later mutations, per key
+        name = node.value.id
+        dep_keys = set()
+        for n in iter_own_nodes(f.node):
+            tgt = None
+            if isinstance(n, ast.AugAssign) and isinstance(n.target, ast.Subscript) and ast.unparse(n.target.value) == name:
+                tgt, val = n.target, n.value
+                if {x.id for x in ast.walk(val) if isinstance(x, ast.Name)} & (dep - {name}):
+                    dep_keys.add(ast.unparse(tgt.slice))
+            if isinstance(n, ast.Call) and isinstance(n.func, ast.Attribute) and n.func.attr in MUTATORS \
+                    and isinstance(n.func.value, ast.Subscript) and ast.unparse(n.func.value.value) == name:
+                ctl = any({x.id for x in ast.walk(t) if isinstance(x, ast.Name)} & (dep - {name}) for t, _ in enclosing_tests(f.node, n)) \
+                    or any({x.id for x in ast.walk(a) if isinstance(x, ast.Name)} & (dep - {name}) for a in n.args)
+                if ctl and isinstance(n.func.value.slice, ast.Constant):
+                    dep_keys.add(n.func.value.slice.value)
+        dep_keys = {k.strip("'\"") if isinstance(k, str) else k for k in dep_keys}
+        if keys and not (keys & dep_keys):
+            return "readers use only the entries %s, the argument-dependent entries are %s" % (sorted(keys), sorted(dep_keys))
+        return None
+    # (b) read only inside builders of other lazily cached attributes, where it reaches only their unread part
+    for g, n, par in content_reads:
+        st = None
+        if not g.name.startswith("_set_") and not g.name.startswith("_get_"):
+            return None
+    # the only consumer must itself be exempt by (a)
+    consumers = {g.key for g, n, par in content_reads}
+    if len(consumers) == 1:
+        g = ctx.ix.funcs[next(iter(consumers))]
+        for m in iter_own_nodes(g.node):
+            if isinstance(m, ast.Assign) and isinstance(m.targets[0], ast.Attribute) and isinstance(m.targets[0].value, ast.Name) \
+                    and m.targets[0].value.id == "self" and m.targets[0].attr != attr:
+                dep2 = _param_dependent_names(ctx, g)
+                inner = _dependent_part_unread(ctx, g, m, m.targets[0], dep2) if m.targets[0].attr != attr else None
+                if inner:
+                    return "only read by %s, whose argument-dependent part is unread (%s)" % (g.qual, inner)
+    return None
 
 
 def _memo_guard_in_callers(ctx, f, tgt):
